@@ -61,6 +61,10 @@ pub fn check(c: &Case2, st: &mut Stats, cfg: &Cfg, bin: &std::path::Path, hv: &s
     let cmds = c.0.mcmds();
     let m = run_model(&cmds, &c.0.stdin, cfg.budget, 7, false);
     st.class(describe_end(&m.end));
+    if m.flags.stack_ops > 4_000_000 {
+        st.exclude("more than 4 million stack operations (too slow to judge with a fixed CPU limit)");
+        return Ok(());
+    }
     let stacks_above3: std::collections::BTreeSet<usize> = c.0.cmds.iter().filter(|x| x.kind != 0 && x.d > 3).map(|x| x.d).collect();
     let selected_above3: std::collections::BTreeSet<usize> = c.0.cmds.iter().filter(|x| x.kind == 5 && x.d > 3).map(|x| x.d).collect();
     if stacks_above3.len() >= 2 {
@@ -228,9 +232,9 @@ pub fn run(ctx: &Ctx, out: &mut Outcome) {
     let bin = ctx.hyeong_bin();
     let hv = std::env::current_exe().unwrap_or_else(|_| ctx.verif.join("target/hv/release/hv"));
     let scratch = ctx.scratch.clone();
-    let cfg = Cfg { budget: t.pick(3000, 20000), child_steps: t.pick(4000, 40000) };
-    let max_len = t.pick(40, 100);
-    search::<Case2>(ctx, out, "general", t.pick(12_000, 150_000), &move || prog_case(&profile(max_len)).prop_map(Case2).boxed(), &move |c, st| check(c, st, &cfg, &bin, &hv, &scratch));
+    let cfg = Cfg { budget: t.pick(3000, 10000), child_steps: t.pick(4000, 20000) };
+    let max_len = t.pick(40, 80);
+    search::<Case2>(ctx, out, "general", t.pick(12_000, 70_000), &move || prog_case(&profile(max_len)).prop_map(Case2).boxed(), &move |c, st| check(c, st, &cfg, &bin, &hv, &scratch));
 }
 
 pub fn replay(ctx: &Ctx, v: &Value) -> Result<CheckResult, String> {
